@@ -21,9 +21,9 @@ impl PollHeader for Header {
 
     fn build_empty_packet(&self) -> Option<Self::Packet> {
         let packet = match self.typ {
-            PacketType::Pingreq => Packet::Pingreq,
-            PacketType::Pingresp => Packet::Pingresp,
-            PacketType::Disconnect => Packet::Disconnect,
+            PacketType::Pingreq if self.remaining_len == 0 => Packet::Pingreq,
+            PacketType::Pingresp if self.remaining_len == 0 => Packet::Pingresp,
+            PacketType::Disconnect if self.remaining_len == 0 => Packet::Disconnect,
             _ => return None,
         };
         Some(packet)
@@ -50,7 +50,9 @@ impl PollHeader for Header {
             PacketType::Unsuback => Ok(Packet::Unsuback(Pid::try_from(block_on(read_u16(
                 reader,
             ))?)?)),
-            PacketType::Pingreq | PacketType::Pingresp | PacketType::Disconnect => unreachable!(),
+            PacketType::Pingreq | PacketType::Pingresp | PacketType::Disconnect => {
+                Err(Error::InvalidRemainingLength)
+            }
         }
     }
 
